@@ -1,5 +1,507 @@
-import BacVerif.Model.RouterCache
+/-
+  C19 — Routing knowledge stays coherent: one next hop per destination, newest wins.
+
+  Property text → formal statement (model: Model/RouterCache.lean, the tree after
+  fixes/C19-delete-router-info.patch and fixes/C19-renumber-occupied.patch)
+
+  * "Whatever sequence of I-Am-Router-To-Network announcements, routed traffic
+    revealing source networks, deletions and network-number changes a node
+    observes"            → histories `List (Op α)` over the cache (`run`) and
+                           `List (Ev α)` over the node (`nodeRun`); every theorem
+                           quantifies over all of them, all arguments, no bound.
+  * "its routing knowledge names for each pair of attached network and destination
+    network at most one next-hop router, every destination credited to a router can
+    be looked up and leads to that router, and nothing else can"
+                         → `Coherent` (path table names `a` for `(s,d)`  ⇔  `a` is a
+                           router on `s` credited with `d`); `coherent_init`,
+                           `coherent_step`, `run_coherent`, `node_coherent`,
+                           `nodeRun_coherent`; `one_next_hop`, `lookup_sound`,
+                           `lookup_complete`.
+  * "A newer announcement for a destination replaces the older router for it"
+                         → `newest_wins`, `update_frame` (nothing outside {s}×dnets moves).
+  * "forgetting a router or a destination removes exactly that and keeps the rest
+    usable"              → `delete_router_exact`, `delete_dnets_exact`,
+                           `delete_router_dnets_exact`; `renumber_exact` (also onto
+                           an occupied network: the moved entry wins, the rest stays).
+  * the pair of indexes is observationally ONE map (snet, dnet) ↦ router
+                         → `refines` / `run_refines` (simulation by `AMap`), `credits_iff_abs`.
+  * "traffic sent afterwards follows the current knowledge"
+                         → `traffic_follows`, `traffic_follows_history`,
+                           `node_iam_learns`, `node_routed_learns`.
+  * no operation fails from a coherent state, except the documented refusal of
+    `delete_router_info(snet)` without router and destinations → `no_failure`.
+-/
+import BacVerif.Lemmas.RouterCacheRenumber
 namespace BacVerif.C19
 open BacVerif.RouterCache
-theorem placeholder : (Cache.empty : Cache Nat).pathInfo = [] := rfl
+variable {α : Type} [DecidableEq α]
+
+/-! ## the abstract map -/
+
+/-- routing knowledge as a single map `(snet, dnet) ↦ router` -/
+abbrev AMap (α : Type) := Net → Nat → Option α
+
+def AMap.empty : AMap α := fun _ _ => none
+
+/-- what the two indexes say, read through the path table -/
+def absOf (c : Cache α) : AMap α := fun s d => pget c s d
+
+/-- learn: overwrite.  `fun s' d' => if s' = s ∧ d' ∈ ds then some a else m s' d'` -/
+def AMap.learn (m : AMap α) (s : Net) (a : α) (ds : List Nat) : AMap α := learnMap m s a ds
+
+/-- forget: remove exactly what is named (`forgetMap`, Lemmas/RouterCacheStrip.lean):
+    router only → every entry of `s` that names it; router + destinations → those of
+    the destinations that name it; destinations only → those destinations -/
+def AMap.forget (m : AMap α) (s : Net) (a : Option α) (ds : Option (List Nat)) : AMap α :=
+  forgetMap m s a ds
+
+/-- renumber: move, the moved entry wins (`renumberMap`) -/
+def AMap.renumber (m : AMap α) (old new : Net) : AMap α := renumberMap m old new
+
+def AMap.step (m : AMap α) : Op α → AMap α
+  | .update s a ds _ => m.learn s a ds
+  | .status _ _ _ => m
+  | .delete s a ds => m.forget s a ds
+  | .renumber o n => m.renumber o n
+
+def AMap.run (m : AMap α) : List (Op α) → AMap α
+  | [] => m
+  | op :: ops => AMap.run (m.step op) ops
+
+/-! ## Coherent: initially, and what it gives -/
+
+theorem coherent_init : Coherent (Cache.empty : Cache α) := by
+  intro s d a
+  simp [Cache.empty, pget, Credits, rget]
+
+/-- at most one next-hop router per (source network, destination network) -/
+theorem one_next_hop (c : Cache α) (hc : Coherent c) (s : Net) (a b : α) (d : Nat)
+    (ha : Credits c s a d) (hb : Credits c s b d) : a = b := hc.unique ha hb
+
+/-- the two indexes are one map: the routers index is determined by the path table -/
+theorem credits_iff_abs (c : Cache α) (hc : Coherent c) (s : Net) (a : α) (d : Nat) :
+    Credits c s a d ↔ absOf c s d = some a := (hc s d a).symm
+
+/-- a lookup that answers leads to a router that exists and is credited with the destination -/
+theorem lookup_sound (c : Cache α) (hc : Coherent c) (s : Net) (d : Nat) (a : α)
+    (r : Option RouterInfo) (h : getRouterInfo c s d = some (a, r)) :
+    ∃ ri, r = some ri ∧ rget c s a = some ri ∧ has d ri.dnets = true := by
+  unfold getRouterInfo at h
+  cases hp : pget c s d with
+  | none => simp [hp] at h
+  | some a' =>
+    simp only [hp, Option.some.injEq, Prod.mk.injEq] at h
+    obtain ⟨rfl, rfl⟩ := h
+    obtain ⟨ri, hri, hd⟩ := (hc s d a').mp hp
+    exact ⟨ri, hri, hri, hd⟩
+
+/-- every destination credited to a router can be looked up and leads to that router -/
+theorem lookup_complete (c : Cache α) (hc : Coherent c) (s : Net) (d : Nat) (a : α)
+    (h : Credits c s a d) : ∃ ri, getRouterInfo c s d = some (a, some ri) ∧ has d ri.dnets = true := by
+  have hp := (hc s d a).mpr h
+  obtain ⟨ri, hri, hd⟩ := h
+  exact ⟨ri, by simp [getRouterInfo, hp, hri], hd⟩
+
+/-! ## every operation: total, coherent, and the obvious step on the abstract map -/
+
+theorem status_spec (c : Cache α) (s : Net) (a : α) (st : Nat) (hc : Coherent c) :
+    Coherent (updateRouterStatus c s a st) ∧ absOf (updateRouterStatus c s a st) = absOf c := by
+  unfold updateRouterStatus
+  cases hr : rget c s a with
+  | none => exact ⟨hc, rfl⟩
+  | some ri =>
+    refine ⟨?_, ?_⟩
+    · intro s' d' a'
+      unfold Credits
+      rw [pget_rset, rget_rset]
+      by_cases e : s' = s ∧ a' = a
+      · obtain ⟨rfl, rfl⟩ := e
+        simp only [and_self, ↓reduceIte, Option.some.injEq, exists_eq_left']
+        rw [hc s' d' a']
+        constructor
+        · rintro ⟨ri', h1, h2⟩; rw [hr] at h1; cases h1; exact h2
+        · intro h; exact ⟨ri, hr, h⟩
+      · simp only [e, ↓reduceIte]; exact hc s' d' a'
+    · funext s' d'; simp [absOf]
+
+/-- the central theorem: from a coherent cache every operation either succeeds —
+    the result is coherent and its abstract map is the abstract step of the old
+    one — or it is the refused call `delete_router_info(snet, None, None)`. -/
+theorem step_spec (c : Cache α) (op : Op α) (hc : Coherent c) :
+    (∃ c', step c op = .ok c' ∧ Coherent c' ∧ absOf c' = (absOf c).step op) ∨
+    (∃ s, op = .delete s none none ∧ step c op = .error .inconsistent) := by
+  cases op with
+  | update s a ds st =>
+    obtain ⟨c', e, hc', hP⟩ := update_spec c s a ds st hc
+    exact Or.inl ⟨c', e, hc', by funext s' d'; simp [absOf, AMap.step, AMap.learn, learnMap, hP]⟩
+  | status s a st =>
+    obtain ⟨h1, h2⟩ := status_spec c s a st hc
+    exact Or.inl ⟨_, rfl, h1, h2⟩
+  | delete s a ds =>
+    by_cases hne : a = none ∧ ds = none
+    · obtain ⟨rfl, rfl⟩ := hne
+      exact Or.inr ⟨s, rfl, rfl⟩
+    · obtain ⟨c', e, hc', hP⟩ := delete_spec c s a ds hc hne
+      refine Or.inl ⟨c', e, hc', ?_⟩
+      funext s' d'
+      simp only [absOf, AMap.step, AMap.forget, hP]
+      rfl
+  | renumber o n =>
+    obtain ⟨c', e, hc', hP⟩ := renumber_spec c o n hc
+    refine Or.inl ⟨c', e, hc', ?_⟩
+    funext s' d'
+    simp only [absOf, AMap.step, AMap.renumber, hP]
+    rfl
+
+/-- `Coherent` is preserved by every operation, for all arguments -/
+theorem coherent_step (c c' : Cache α) (op : Op α) (hc : Coherent c) (h : step c op = .ok c') :
+    Coherent c' := by
+  rcases step_spec c op hc with ⟨c'', e, hc'', _⟩ | ⟨s, _, e⟩
+  · rw [h] at e; cases e; exact hc''
+  · rw [h] at e; cases e
+
+/-- refinement: the pair of indexes behaves as the single abstract map -/
+theorem refines (c c' : Cache α) (op : Op α) (hc : Coherent c) (h : step c op = .ok c') :
+    absOf c' = (absOf c).step op := by
+  rcases step_spec c op hc with ⟨c'', e, _, habs⟩ | ⟨s, _, e⟩
+  · rw [h] at e; cases e; exact habs
+  · rw [h] at e; cases e
+
+/-- from a coherent state nothing fails (no KeyError, no unresolvable reference);
+    the only non-`ok` outcome is the documented refusal, which changes nothing -/
+theorem no_failure (c : Cache α) (op : Op α) (e : RErr) (hc : Coherent c)
+    (h : step c op = .error e) : e = .inconsistent ∧ ∃ s, op = .delete s none none := by
+  rcases step_spec c op hc with ⟨c'', e', _, _⟩ | ⟨s, hop, e'⟩
+  · rw [h] at e'; cases e'
+  · rw [h] at e'; cases e'; exact ⟨rfl, s, hop⟩
+
+theorem run_spec (ops : List (Op α)) :
+    ∀ (c : Cache α), Coherent c →
+      Coherent (run c ops) ∧ absOf (run c ops) = AMap.run (absOf c) ops := by
+  induction ops with
+  | nil => intro c hc; exact ⟨hc, rfl⟩
+  | cons op ops ih =>
+    intro c hc
+    unfold run AMap.run
+    rcases step_spec c op hc with ⟨c', e, hc', habs⟩ | ⟨s, hop, e⟩
+    · simp only [e]
+      rw [← habs]; exact ih c' hc'
+    · simp only [e]
+      have : (absOf c).step op = absOf c := by
+        subst hop; funext s' d'; simp [AMap.step, AMap.forget, forgetMap]
+      rw [this]; exact ih c hc
+
+/-- `Coherent` holds after every history -/
+theorem run_coherent (ops : List (Op α)) : Coherent (run (Cache.empty : Cache α) ops) :=
+  (run_spec ops Cache.empty coherent_init).1
+
+/-- after every history the real indexes denote the map the abstract rules compute -/
+theorem run_refines (ops : List (Op α)) :
+    absOf (run (Cache.empty : Cache α) ops) = AMap.run AMap.empty ops := by
+  have := (run_spec ops (Cache.empty : Cache α) coherent_init).2
+  rw [this]; rfl
+
+/-! ## the named clauses -/
+
+/-- newest wins: after an announcement, every announced destination is looked up
+    to the announcing router, which is credited with it -/
+theorem newest_wins (c c' : Cache α) (s : Net) (a : α) (ds : List Nat) (st : Nat) (d : Nat)
+    (hc : Coherent c) (h : updateRouterInfo c s a ds st = .ok c') (hd : d ∈ ds) :
+    ∃ ri, getRouterInfo c' s d = some (a, some ri) ∧ has d ri.dnets = true := by
+  have hc' := coherent_step c c' (.update s a ds st) hc h
+  have habs := refines c c' (.update s a ds st) hc h
+  have : absOf c' s d = some a := by rw [habs]; simp [AMap.step, AMap.learn, learnMap, hd]
+  exact lookup_complete c' hc' s d a ((hc' s d a).mp this)
+
+/-- … and the router it displaces is no longer credited with that destination -/
+theorem newest_wins_displaces (c c' : Cache α) (s : Net) (a b : α) (ds : List Nat) (st : Nat)
+    (d : Nat) (hc : Coherent c) (h : updateRouterInfo c s a ds st = .ok c') (hd : d ∈ ds)
+    (hb : b ≠ a) : ¬ Credits c' s b d := by
+  have hc' := coherent_step c c' (.update s a ds st) hc h
+  have habs := refines c c' (.update s a ds st) hc h
+  intro hcr
+  have h1 : absOf c' s d = some b := (hc' s d b).mpr hcr
+  rw [habs] at h1
+  simp [AMap.step, AMap.learn, learnMap, hd] at h1
+  exact hb h1.symm
+
+/-- an announcement touches nothing outside `{s} × dnets`: neither lookups nor credits -/
+theorem update_frame (c c' : Cache α) (s : Net) (a : α) (ds : List Nat) (st : Nat)
+    (hc : Coherent c) (h : updateRouterInfo c s a ds st = .ok c')
+    (s' : Net) (d' : Nat) (hout : ¬ (s' = s ∧ d' ∈ ds)) :
+    pget c' s' d' = pget c s' d' ∧ ∀ b, Credits c' s' b d' ↔ Credits c s' b d' := by
+  have hc' := coherent_step c c' (.update s a ds st) hc h
+  have habs := refines c c' (.update s a ds st) hc h
+  have h1 : pget c' s' d' = pget c s' d' := by
+    have := congrFun (congrFun habs s') d'
+    simpa [absOf, AMap.step, AMap.learn, learnMap, hout] using this
+  exact ⟨h1, fun b => by rw [← hc' s' d' b, ← hc s' d' b, h1]⟩
+
+/-- forgetting a router removes exactly the destinations it was credited with -/
+theorem delete_router_exact (c c' : Cache α) (s : Net) (a : α) (hc : Coherent c)
+    (h : deleteRouterInfo c s (some a) none = .ok c') (s' : Net) (d' : Nat) :
+    pget c' s' d' = if s' = s ∧ pget c s d' = some a then none else pget c s' d' := by
+  have habs := refines c c' (.delete s (some a) none) hc h
+  have := congrFun (congrFun habs s') d'
+  simp only [absOf, AMap.step, AMap.forget, forgetMap] at this
+  rw [this]
+  exact ite_congr rfl (fun _ => rfl) (fun _ => rfl)
+
+/-- forgetting destinations removes exactly those destinations, whoever served them -/
+theorem delete_dnets_exact (c c' : Cache α) (s : Net) (ds : List Nat) (hc : Coherent c)
+    (h : deleteRouterInfo c s none (some ds) = .ok c') (s' : Net) (d' : Nat) :
+    pget c' s' d' = if s' = s ∧ d' ∈ ds then none else pget c s' d' := by
+  have habs := refines c c' (.delete s none (some ds)) hc h
+  have := congrFun (congrFun habs s') d'
+  simp only [absOf, AMap.step, AMap.forget, forgetMap] at this
+  rw [this]
+
+/-- forgetting some destinations of one router removes exactly those it serves -/
+theorem delete_router_dnets_exact (c c' : Cache α) (s : Net) (a : α) (x : Nat) (xs : List Nat)
+    (hc : Coherent c) (h : deleteRouterInfo c s (some a) (some (x :: xs)) = .ok c')
+    (s' : Net) (d' : Nat) :
+    pget c' s' d' =
+      if s' = s ∧ d' ∈ (x :: xs) ∧ pget c s d' = some a then none else pget c s' d' := by
+  have habs := refines c c' (.delete s (some a) (some (x :: xs))) hc h
+  have := congrFun (congrFun habs s') d'
+  simp only [absOf, AMap.step, AMap.forget, forgetMap] at this
+  rw [this]
+  exact ite_congr rfl (fun _ => rfl) (fun _ => rfl)
+
+/-- whatever is forgotten, the result is coherent: everything that is left can
+    still be looked up and leads to its router (`lookup_complete`) -/
+theorem delete_keeps_rest_usable (c c' : Cache α) (s : Net) (a : Option α)
+    (ds : Option (List Nat)) (hc : Coherent c) (h : deleteRouterInfo c s a ds = .ok c') :
+    Coherent c' := coherent_step c c' (.delete s a ds) hc h
+
+/-- renumbering moves exactly the entries of the old network; onto an occupied
+    network the moved entries win and every other entry of that network stays -/
+theorem renumber_exact (c c' : Cache α) (old new : Net) (hc : Coherent c) (hne : old ≠ new)
+    (h : updateSourceNetwork c old new = .ok c') (s' : Net) (d' : Nat) :
+    pget c' s' d' =
+      if s' = old then none
+      else if s' = new then (match pget c old d' with | some a => some a | none => pget c new d')
+      else pget c s' d' := by
+  have habs := refines c c' (.renumber old new) hc h
+  have := congrFun (congrFun habs s') d'
+  simp only [absOf, AMap.step, AMap.renumber, renumberMap, hne, ↓reduceIte] at this
+  rw [this]
+  exact ite_congr rfl (fun _ => rfl) (fun _ => ite_congr rfl (fun _ => by cases pget c old d' <;> rfl) (fun _ => rfl))
+
+/-! ## the node: learning paths and the next hop of originated traffic -/
+
+/-- every node event leaves the cache alone or applies one successful cache operation -/
+theorem nodeStep_cache (n : Node α) (ev : Ev α) :
+    (nodeStep n ev).1.cache = n.cache ∨ ∃ op, step n.cache op = .ok (nodeStep n ev).1.cache := by
+  cases ev with
+  | iam port src nets =>
+    simp only [nodeStep]
+    split
+    · exact Or.inl rfl
+    · split
+      · exact Or.inl rfl
+      · rename_i c h; exact Or.inr ⟨.update (portNet n port) src nets 0, h⟩
+  | routed port src snet =>
+    simp only [nodeStep]
+    split
+    · exact Or.inl rfl
+    · split
+      · exact Or.inl rfl
+      · rename_i c h; exact Or.inr ⟨.update (portNet n port) src [snet] 0, h⟩
+  | nni port net flag bcast =>
+    simp only [nodeStep]
+    split
+    · exact Or.inl rfl
+    · split
+      · exact Or.inl rfl
+      · split
+        · split
+          · exact Or.inl rfl
+          · rename_i c h
+            split
+            · exact Or.inr ⟨.renumber none (some net), h⟩
+            · exact Or.inr ⟨.renumber none (some net), h⟩
+        · rename_i cur _
+          split
+          · exact Or.inl rfl
+          · split
+            · exact Or.inl rfl
+            · split
+              · exact Or.inl rfl
+              · rename_i c h
+                split
+                · exact Or.inr ⟨.renumber (some cur) (some net), h⟩
+                · exact Or.inr ⟨.renumber (some cur) (some net), h⟩
+  | forget snet a dnets =>
+    simp only [nodeStep]
+    split
+    · exact Or.inl rfl
+    · split
+      · exact Or.inl rfl
+      · rename_i c h; exact Or.inr ⟨.delete snet a dnets, h⟩
+  | originate dnet dst =>
+    simp only [nodeStep]
+    split
+    · exact Or.inl rfl
+    · split
+      · split <;> exact Or.inl rfl
+      · split
+        · split
+          · exact Or.inl rfl
+          · split <;> exact Or.inl rfl
+        · exact Or.inl rfl
+
+/-- whatever the node observes, its routing knowledge stays coherent -/
+theorem node_coherent (n : Node α) (ev : Ev α) (hc : Coherent n.cache) :
+    Coherent (nodeStep n ev).1.cache := by
+  rcases nodeStep_cache n ev with h | ⟨op, h⟩
+  · rw [h]; exact hc
+  · exact coherent_step _ _ op hc h
+
+theorem nodeRun_coherent (evs : List (Ev α)) :
+    ∀ (n : Node α), Coherent n.cache → Coherent (nodeRun n evs).cache := by
+  induction evs with
+  | nil => intro n hc; exact hc
+  | cons e es ih => intro n hc; exact ih _ (node_coherent n e hc)
+
+/-- an accepted I-Am-Router-To-Network is exactly `learn` on the abstract map -/
+theorem node_iam_learns (n : Node α) (port : Nat) (src : α) (nets : List Nat)
+    (hc : Coherent n.cache) (hok : (nodeStep n (.iam port src nets)).2.raised = none) :
+    absOf (nodeStep n (.iam port src nets)).1.cache =
+      (absOf n.cache).learn (portNet n port) src nets := by
+  obtain ⟨c', e, _, hP⟩ := update_spec n.cache (portNet n port) src nets 0 hc
+  simp only [nodeStep] at hok ⊢
+  split at hok
+  · simp at hok
+  · rename_i hh
+    simp only [hh, e]
+    funext s' d'
+    simp [absOf, AMap.learn, learnMap, hP]
+
+/-- routed traffic from a network that is not directly attached is `learn` of its
+    source network via the station that forwarded it -/
+theorem node_routed_learns (n : Node α) (port : Nat) (src : α) (snet : Nat)
+    (hc : Coherent n.cache) (hfar : has (some snet) n.adapters = false) :
+    absOf (nodeStep n (.routed port src snet)).1.cache =
+      (absOf n.cache).learn (portNet n port) src [snet] := by
+  obtain ⟨c', e, _, hP⟩ := update_spec n.cache (portNet n port) src [snet] 0 hc
+  simp only [nodeStep, hfar, Bool.false_eq_true, ↓reduceIte, e]
+  funext s' d'
+  simp [absOf, AMap.learn, learnMap, hP]
+
+/-- the next hop the abstract map prescribes: the first adapter (in the order of
+    the adapter table) whose network has an entry for the destination -/
+def nextHopAbs (m : AMap α) (d : Nat) : List (Net × Nat) → Option (Nat × α)
+  | [] => none
+  | (s, port) :: t =>
+    match m s d with
+    | some a => some (port, a)
+    | none => nextHopAbs m d t
+
+omit [DecidableEq α] in
+theorem firstRoute_abs (c : Cache α) (d : Nat) (L : List (Net × Nat)) :
+    (∀ s port a, firstRoute c d L = some (s, port, a) →
+        pget c s d = some a ∧ nextHopAbs (absOf c) d L = some (port, a)) ∧
+    (firstRoute c d L = none → nextHopAbs (absOf c) d L = none) := by
+  induction L with
+  | nil => simp [firstRoute, nextHopAbs]
+  | cons h t ih =>
+    obtain ⟨s0, p0⟩ := h
+    unfold firstRoute nextHopAbs
+    cases hp : pget c s0 d with
+    | none => simpa [absOf, hp] using ih
+    | some a0 =>
+      simp only [absOf, hp, Option.some.injEq, Prod.mk.injEq, reduceCtorEq, false_implies,
+        and_true]
+      rintro s port a ⟨rfl, rfl, rfl⟩
+      exact ⟨hp, rfl, rfl⟩
+
+/-- traffic follows the current knowledge: a packet for a remote network (not the
+    local one, nothing already waiting for it) is sent to the router the abstract
+    map names, on that adapter; with no entry, Who-Is-Router-To-Network goes out on
+    every adapter.  In particular the send never fails. -/
+theorem traffic_follows (n : Node α) (d : Nat) (dst : α) (hc : Coherent n.cache)
+    (hl : portNet n n.localPort ≠ some d) (hp : has d n.pending = false) :
+    (nodeStep n (.originate d dst)).2 =
+      match nextHopAbs (absOf n.cache) d (items n.adapters) with
+      | some (port, a) => { frames := [Frame.apdu port (Dest.station a) (some d)] }
+      | none => { frames := ((items n.adapters).map (·.2)).map (fun p => Frame.whoIs p d) } := by
+  simp only [nodeStep, hl, ↓reduceIte, hp, Bool.false_eq_true]
+  obtain ⟨h1, h2⟩ := firstRoute_abs n.cache d (items n.adapters)
+  cases hf : firstRoute n.cache d (items n.adapters) with
+  | none => simp only [h2 hf]
+  | some r =>
+    obtain ⟨s, port, a⟩ := r
+    obtain ⟨hpg, hnh⟩ := h1 s port a hf
+    obtain ⟨ri, hri, hd⟩ := (hc s d a).mp hpg
+    simp only [hnh, hri, hd, ↓reduceIte]
+
+/-- … after any history of events, from any node whose cache starts coherent (e.g. empty) -/
+theorem traffic_follows_history (n0 : Node α) (evs : List (Ev α)) (d : Nat) (dst : α)
+    (hc0 : Coherent n0.cache)
+    (hl : portNet (nodeRun n0 evs) (nodeRun n0 evs).localPort ≠ some d)
+    (hp : has d (nodeRun n0 evs).pending = false) :
+    (nodeStep (nodeRun n0 evs) (.originate d dst)).2 =
+      match nextHopAbs (absOf (nodeRun n0 evs).cache) d (items (nodeRun n0 evs).adapters) with
+      | some (port, a) => { frames := [Frame.apdu port (Dest.station a) (some d)] }
+      | none => { frames := ((items (nodeRun n0 evs).adapters).map (·.2)).map
+                              (fun p => Frame.whoIs p d) } :=
+  traffic_follows _ d dst (nodeRun_coherent evs n0 hc0) hl hp
+
+/-! ## non-vacuity: concrete, non-trivial instances of the hypotheses
+    (`decide +kernel` here evaluates the model on ONE sample — a test, not a theorem) -/
+
+/-- two source networks, three routers, competing announcements, a renumbering onto
+    an occupied network and a deletion -/
+def sampleHistory : List (Op Nat) :=
+  [.update (some 5) 1 [10, 11] 0, .update (some 6) 2 [10, 12] 0, .update (some 5) 3 [11] 0,
+   .update (some 6) 3 [13] 1, .renumber (some 5) (some 6), .delete (some 6) (some 2) (some [12])]
+
+def sampleCache : Cache Nat := run Cache.empty sampleHistory
+
+/-- `Coherent sampleCache` holds (by `run_coherent`) and the cache is not trivial:
+    three routers on network 6, router 1 took destination 10 from router 2 by the
+    renumbering, router 3 took 11 from router 1 by its announcement -/
+example : Coherent sampleCache := run_coherent sampleHistory
+example : pget sampleCache (some 6) 10 = some 1 ∧ pget sampleCache (some 6) 11 = some 3 ∧
+    pget sampleCache (some 6) 13 = some 3 ∧ pget sampleCache (some 6) 12 = none ∧
+    pget sampleCache (some 5) 10 = none := by decide +kernel
+/-- observe a few lookups of the result of an operation (`none` if it failed) -/
+def look (r : Except RErr (Cache Nat)) (qs : List (Net × Nat)) : Option (List (Option Nat)) :=
+  r.toOption.map fun c => qs.map fun q => pget c q.1 q.2
+
+/-- hypotheses of `newest_wins` / `update_frame`: the announcement succeeds and displaces a router -/
+example : look (updateRouterInfo sampleCache (some 6) 2 [10, 13] 0)
+    [(some 6, 10), (some 6, 13), (some 6, 11)] = some [some 2, some 2, some 3] := by decide +kernel
+/-- hypotheses of `delete_*_exact` -/
+example : look (deleteRouterInfo sampleCache (some 6) (some 3) none)
+    [(some 6, 11), (some 6, 13), (some 6, 10)] = some [none, none, some 1] := by decide +kernel
+example : look (deleteRouterInfo sampleCache (some 6) none (some [10, 12]))
+    [(some 6, 10), (some 6, 11)] = some [none, some 3] := by decide +kernel
+example : look (deleteRouterInfo sampleCache (some 6) (some 3) (some [11, 10]))
+    [(some 6, 11), (some 6, 10), (some 6, 13)] = some [none, some 1, some 3] := by decide +kernel
+/-- hypotheses of `renumber_exact`, onto an occupied network -/
+example : look (updateSourceNetwork
+      (run Cache.empty [.update (some 5) 1 [10, 11] 0, .update (some 6) 2 [10, 12] 0])
+      (some 5) (some 6))
+    [(some 6, 10), (some 6, 11), (some 6, 12), (some 5, 10)] = some [some 1, some 1, some 2, none] := by
+  decide +kernel
+/-- the refusal of `no_failure` exists, and only it -/
+example : step sampleCache (.delete (some 6) none none) = .error .inconsistent := rfl
+
+/-- a router between networks 5 and 6 that has learned, renumbered and forgotten -/
+def sampleNode : Node Nat :=
+  nodeRun { ports := [⟨some 5, some 0⟩, ⟨some 6, some 0⟩], adapters := [(some 5, 0), (some 6, 1)],
+            localPort := 0, cache := Cache.empty }
+    [.iam 0 1 [10, 11], .iam 1 2 [10, 12], .routed 1 3 13, .forget (some 5) none (some [10])]
+
+/-- hypotheses of `traffic_follows`: destination 10 is neither local nor pending, and
+    the packet goes to router 2 on adapter 1 (router 1's entry was forgotten) -/
+example : portNet sampleNode sampleNode.localPort ≠ some 10 ∧ has 10 sampleNode.pending = false ∧
+    nextHopAbs (absOf sampleNode.cache) 10 (items sampleNode.adapters) = some (1, 2) := by
+  decide +kernel
+/-- hypotheses of `node_iam_learns` / `node_routed_learns` -/
+example : (nodeStep sampleNode (.iam 0 3 [12, 13])).2.raised = none := by decide +kernel
+example : has (some 13) sampleNode.adapters = false := by decide +kernel
+
 end BacVerif.C19
